@@ -31,8 +31,8 @@ REQUIRED = ["sort_perm_invariant", "compile_independent_of_iteration_order", "co
 
 EXPECT = os.path.join(vlib.VERIF, "extract", "c27_sites_expected.json")
 GEN = os.path.join(vlib.LEAN, "WaVerif", "Gen", "C27Sites.lean")
-CLS = {"sorted-after": "sortedAfter", "order-insensitive": "orderInsensitive", "unreachable": "unreachable", "other": "other"}
-AUDITS = {"commutative", "perElement", "sortedLater", "uniqueSearch", "totalOrder", "debugOnly", "errorPathOnly", "notOnBuildPath"}
+CLS = {"sorted-after": "sortedAfter", "sorted-by-key": "sortedByKey", "order-insensitive": "orderInsensitive", "unreachable": "unreachable", "other": "other"}
+AUDITS = {"injectiveKey", "commutative", "perElement", "sortedLater", "uniqueSearch", "totalOrder", "debugOnly", "errorPathOnly", "notOnBuildPath"}
 
 # std packages compiled as a whole by a blank import (every member of every loaded package is compiled)
 STD_SETS = [["fmt"], ["strings", "strconv"], ["bytes", "bufio"], ["sort", "errors"], ["math", "math/bits"], ["unicode", "unicode/utf8"],
@@ -82,7 +82,7 @@ def regenerate(ctx):
             if not same:
                 facts["new_or_changed"].append({"site": sid, "line": s["line"], "expr": s["expr"], "class": s["class"], "detail": s["detail"],
                                                 "expected": e})
-            if s["class"] == "other":
+            if s["class"] in ("other", "sorted-by-key"):
                 audit = e.get("audit") if same else None
                 if audit not in AUDITS:
                     audit = "unaudited"
@@ -90,9 +90,9 @@ def regenerate(ctx):
                     facts["unaudited_other"].append(sid)
                     ctx.proof["broken"].append({
                         "theorem": "static facts C27: map-range site not accounted",
-                        "why": "%s line %d: `range %s` is %s and of class 'other' (%s): its iteration order may reach the output; "
-                               "sort the collected keys, or audit the site in extract/c27_sites_expected.json"
-                               % (sid, s["line"], s["expr"], "NEW" if e is None else "CHANGED since the audit", s["detail"])})
+                        "why": "%s line %d: `range %s` is %s and of class '%s' (%s): its iteration order may reach the output; "
+                               "sort the collected keys by themselves (an injective key), or audit the site in extract/c27_sites_expected.json"
+                               % (sid, s["line"], s["expr"], "NEW" if e is None else "CHANGED since the audit", s["class"], s["detail"])})
             else:
                 audit = "byShape"
             rows.append("  ⟨%s, .%s, .%s⟩" % (lean_str(sid + " | range " + s["expr"]), CLS[s["class"]], audit))
@@ -239,14 +239,25 @@ def run(ctx):
     cross = [[None] * N for _ in items]
     with cf.ThreadPoolExecutor(16) as ex:
         f_in = {ex.submit(run_lines, ctx, h, ["multi", str(N)], [lines[i] for i in c]): c for c in chunks}
-        f_x = {ex.submit(run_lines, ctx, h, ["multi", "1"], lines): j for j in range(N)}
+        # process j builds the corpus in a DIFFERENT order (rotation; the odd ones reversed as well): a program's predecessors in
+        # the process differ from process to process and from the in-process run, so any process-global counter / cache that
+        # leaks from one compilation into the next shows up as a digest difference (process 0 and the first build of a
+        # chunk process give the "fresh process" result for the first program of their order)
+        orders = []
+        for j in range(N):
+            k = (j * len(items)) // N
+            o = list(range(k, len(items))) + list(range(0, k))
+            if j % 2 == 1:
+                o.reverse()
+            orders.append(o)
+        f_x = {ex.submit(run_lines, ctx, h, ["multi", "1"], [lines[i] for i in orders[j]]): j for j in range(N)}
         for fu, c in f_in.items():
             for i, r in zip(c, fu.result()):
                 inproc[i] = r
         for fu, j in f_x.items():
             r = fu.result()
-            for i in range(len(items)):
-                cross[i][j] = r[i] if i < len(r) else "fatal missing"
+            for pos, i in enumerate(orders[j]):
+                cross[i][j] = r[pos] if pos < len(r) else "fatal missing"
     tm["search_s"] = round(time.time() - t, 1); t = time.time()
 
     dist = {"programs": len(items), "builds_per_program": 2 * N, "same": 0, "build_error_same_everywhere": 0, "fatal": 0, "by_group": {}}
@@ -297,30 +308,37 @@ def run(ctx):
     # ---- correspondence: real iteration orders of the real member map -> Lean model -> real emission order
     corr_n = 0
     if model and not ctx.replay:
-        files = [p for (_, k, p, g) in items if k == "file" and g in ("example", "gen", "matrix", "corpus")]
+        files = [p for (_, k, p, g) in items if k == "file" and g == "corpus"] + \
+            [p for (_, k, p, g) in items if k == "file" and g in ("example", "gen", "matrix")]
         files = files[:24] if quick else files[:120]
         mres = run_lines(ctx, h, ["members", "4"], files)
         ops, want = [], []
         for p, r in zip(files, mres):
             if not r.startswith("members "):
                 continue
-            _, orders, _, wat = r.split()
+            _, orders, _, wat, _, globs = r.split()
             for o in orders.split("|"):
                 ops.append("sort " + o)
-                want.append((p, o, wat))
+                want.append((p, o, wat, globs))
         _, mo, _ = ctx.run_bin(model, input_text="\n".join(ops) + "\n")
         mo = mo.splitlines()
         ctx.corr["lines"] += len(ops)
         per = {}
-        for (p, o, wat), m in zip(want, mo + ["<missing>"] * (len(want) - len(mo))):
+        for (p, o, wat, globs), m in zip(want, mo + ["<missing>"] * (len(want) - len(mo))):
             corr_n += 1
-            emitted = wat.split(",")
-            proj = ",".join(x for x in m.split(",") if x in set(emitted))
-            if proj != wat:
-                ctx.corr["diffs"] += 1
-                ctx.proof["broken"].append({"theorem": "correspondence C27 model vs compile.go (emission order)",
-                                            "why": "%s: the functions of the main package appear in the WAT in the order %s, the model (sort by name) says %s"
-                                                   % (os.path.basename(p), [unhex(x) for x in emitted][:12], [unhex(x) for x in proj.split(",") if x][:12])})
+            bad = False
+            for kind, em in (("functions", wat), ("package-level variables", globs)):
+                if em == "-":
+                    continue
+                emitted = em.split(",")
+                proj = ",".join(x for x in m.split(",") if x in set(emitted))
+                if proj != em:
+                    ctx.corr["diffs"] += 1
+                    bad = True
+                    ctx.proof["broken"].append({"theorem": "correspondence C27 model vs compile.go (emission order of %s)" % kind,
+                                                "why": "%s: the %s of the main package appear in the WAT in the order %s, the model (sort.Strings order of the member names) says %s"
+                                                       % (os.path.basename(p), kind, [unhex(x) for x in emitted][:24], [unhex(x) for x in proj.split(",") if x][:24])})
+            if bad:
                 break
             per.setdefault(p, set()).add(m)
             nontrivial.add(("order", o))
@@ -390,4 +408,5 @@ def cross_detail(ctx, h, kind, path):
                             "text": "; first differing WAT line %d:\n    < %s\n    > %s" % (i + 1, x[:200], y[:200])}
         if wasm != first[1]:
             return {"key": "wasm-differs-wat-equal", "text": "; WAT equal but wasm binaries differ"}
-    return {"text": "; (difference not reproduced in 10 further processes)"}
+    return {"key": "history-dependent", "text": "; ten builds in FRESH processes agree with each other, so the result depends on what the same process "
+            "compiled before (the processes build the corpus in different orders): process-global state leaks from one compilation into the next"}
